@@ -282,6 +282,8 @@ def render_generated(consts, conv, mem_types):
 
 # ---- the check -------------------------------------------------------------------------------------------------------
 
+SUFFIX_JUNK = ['cores', ' ', 'e3', 'm0', ' RAM', '/2', '\n', 'x', '.', 'B2', ' B', 'GiB RAM', 'ib', '0x', ';', '\t', '\x00', '\uff11', ',5', '..',
+               'Gi Gi', 'mm', 'BB', '+1', '-1', ' cpu']
 JUNK = ['.', '+', '-', 'e', 'E', ' ', '\n', '\t', 'B', 'b', 'i', 'I', 'k', 'K', 'm', 'M', 'g', 'G', '_', ',', '\uff11', '\u0663', '\xb2', '/', 'x', 'E3', 'e-3',
         'iB', 'BB', 'KB', 'mi', 'Mi', 'Ei', 'E', 'Z', 'Y', 'Bi', '\x00', '\ud800', ' B', '0x', 'inf', 'nan', '1_0']
 
@@ -308,7 +310,8 @@ class C25(Prop):
     rule = ('case = one string, given to all three parsers and to the server validators for resources.cpu/memory/storage. quick: exhaustive '
             'd.ddd (10k: the float-artefact family of cpu), d.dd x 10 units (10k), then random literals of the grammar (0-25 integer and '
             'fractional digits, leading zeros, +, every unit, B) and ~20% malformed strings (one-edit neighbours of literals, junk units, Unicode '
-            'digits, Fraction-only spellings like 1e3/1_0, memory-type words). thorough adds the exhaustive grid: <=2 integer digits x <=3 '
+            'digits, Fraction-only spellings like 1e3/1_0, memory-type words, valid literal + junk suffix). Every string also goes through the '
+            'hailctl config checks of query/batch_{driver,worker}_{cores,memory} (third party of "accept the same strings"). thorough adds the exhaustive grid: <=2 integer digits x <=3 '
             'fractional digits x (none, m, 10 units) and 8 representative integer parts x all 4-digit fractions x the same. non-trivial = '
             'accepted by a parser, or a number followed by an unaccepted tail; distinct by string')
     trusted = ['harness translator: AST extraction of *_REGEXPAT / conv_factor / memory_types and re._parser-based shape analysis of the patterns',
@@ -333,6 +336,13 @@ class C25(Prop):
         self.validate = validate
         self.ValidationError = ValidationError
         self.resources = validate.job_validator['resources']
+        # the third party: hailctl config's checks of query/batch_{driver,worker}_{cores,memory}
+        import hailtop.hailctl.config.config_variables as cv
+        from hailtop.config.variables import ConfigVariable as V
+        table = cv.config_variables()
+        self.cfg_checks = [(name, table[var].validation[0]) for name, var in (
+            ('query/batch_driver_cores', V.QUERY_BATCH_DRIVER_CORES), ('query/batch_worker_cores', V.QUERY_BATCH_WORKER_CORES),
+            ('query/batch_driver_memory', V.QUERY_BATCH_DRIVER_MEMORY), ('query/batch_worker_memory', V.QUERY_BATCH_WORKER_MEMORY))]
         self.repo = repo
 
     # ---- cases --------------------------------------------------------------------------------------
@@ -373,6 +383,9 @@ class C25(Prop):
         if r < 0.08:
             w = rng.choice(MEMORY_WORDS)
             return rng.choice([w, w, w + ' ', w.upper(), w[:-1], ' ' + w, w + '\n', w + 'B'])
+        if r < 0.4:
+            # a valid literal followed by junk (what a check anchored only at the start lets through)
+            return self._random_literal(rng) + rng.choice(SUFFIX_JUNK)
         s = self._random_literal(rng) if r < 0.9 else ''
         pos = rng.randint(0, len(s))
         m = rng.random()
@@ -472,9 +485,10 @@ class C25(Prop):
     def impl(self, c):
         s = c['s']
         p = self.parse
-        return ['cpu=%s mem=%s sto=%s srv=%s%s%s' % (
+        return ['cpu=%s mem=%s sto=%s srv=%s%s%s cfg=%s' % (
             self._canon(p.parse_cpu_in_mcpu(s)), self._canon(p.parse_memory_in_bytes(s)), self._canon(p.parse_storage_in_bytes(s)),
-            self._server('cpu', s), self._server('memory', s), self._server('storage', s))]
+            self._server('cpu', s), self._server('memory', s), self._server('storage', s),
+            ''.join('1' if check(s) else '0' for _name, check in self.cfg_checks))]
 
     @staticmethod
     def _fields(line):
@@ -501,6 +515,12 @@ class C25(Prop):
             if accepted != client:
                 return (f'server job validator {"accepts" if accepted else "rejects"} resources.{key} = {s!r} but the client-side grammar '
                         f'{"accepts" if client else "rejects"} it')
+        for bit, (name, _check) in zip(f['cfg'], self.cfg_checks):
+            accepted = bit == '1'
+            client = (want_cpu is not None) if name.endswith('cores') else (want_b is not None or s in MEMORY_WORDS)
+            if accepted != client:
+                return (f'hailctl config {"accepts" if accepted else "rejects"} {name} = {s!r} but the client parser and the server '
+                        f'validator {"accept" if client else "reject"} it')
         return None
 
     def classify(self, c, out):
